@@ -429,6 +429,41 @@ nd::harnesses! {
         assert!(cast!(grp impl Reader + Other).is_none());
     }
 
+    /// Overridden default-bodied methods (`where Self: Sized`, associated-type argument) reach the
+    /// implementor's override, and a Result method declared after an `#[int_result]` one keeps its error.
+    #[kani::unwind(5)]
+    fn c01_overridden_defaults_and_marker_scope() {
+        let mut direct = Dz { v: nd::any(), adds: 0, urgent: 0 };
+        let mut twin = direct.clone();
+        let boxed: bool = nd::any();
+        let v: u64 = nd::any();
+        let m: u32 = nd::any();
+        let pri: u8 = nd::any();
+        let fail: bool = nd::any();
+        macro_rules! drive { ($obj:ident) => {{
+            assert!(direct.add_twice(v) == $obj.add_twice(v), "the override of a `where Self: Sized` default method is reached");
+            assert!(direct.post_urgent(m, pri) == $obj.post_urgent(m, pri), "the override of a default method with an associated-type argument is reached");
+            assert!(direct.post(m) == $obj.post(m) && direct.add(v) == $obj.add(v));
+            assert!(direct.coded(fail) == $obj.coded(fail));
+            let (a, b) = (direct.io_after(fail), $obj.io_after(fail));
+            match (&a, &b) {
+                (Ok(x), Ok(y)) => assert!(x == y && !fail),
+                (Err(x), Err(y)) => assert!(x.kind() == y.kind() && x.raw_os_error() == y.raw_os_error(), "a non-integer-coded error crosses unaltered"),
+                _ => assert!(false, "Ok/Err differ"),
+            }
+            core::mem::forget(a);
+            core::mem::forget(b);
+            assert!(direct.state() == $obj.state(), "same state and call counts");
+        }}}
+        if boxed {
+            let mut obj = trait_obj!(twin as Defaults);
+            drive!(obj);
+        } else {
+            let mut obj = trait_obj!(&mut twin as Defaults);
+            drive!(obj);
+        }
+    }
+
     /// Negative twin: claims `add` through the object leaves the value unchanged.
     #[kani::unwind(5)]
     fn c01_negative_twin() {
